@@ -207,7 +207,7 @@ def check_spacing_arms(ctx: Ctx) -> None:
             if isinstance(c, ast.Call):
                 t = prog.resolve_call(lm, c)
                 if isinstance(t, list) and len(t) == 1 and not isinstance(t[0].node, ast.Lambda) and t[0] not in cands:
-                    src = norm(t[0].node)
+                    src = ast.unparse(t[0].node)
                     if "children" in src and "len(" in src and not t[0].name.startswith("render"):
                         cands.append(t[0])
         cbt = cands[0] if len(cands) == 1 else None
